@@ -50,7 +50,7 @@ def showText (t : List Char) : String :=
 def parseBit (s k : String) : Option Bool :=
   if s = k ++ "0" then some false else if s = k ++ "1" then some true else none
 
-def parseCfg : List String → Option Cfg
+def parseCfg4 : List String → Option Cfg
   | [a, b, c, d] =>
     match parseBit a "lower=", parseBit b "fold=", parseBit d "pos=" with
     | some l, some f, some p =>
@@ -61,6 +61,15 @@ def parseCfg : List String → Option Cfg
         else v.toNat?.map (fun m => ⟨l, f, some m, p⟩)
       else none
     | _, _, _ => none
+  | _ => none
+
+/-- -> (cfg, split) -/
+def parseCfg : List String → Option (Cfg × Bool)
+  | [a, b, c, d] => (parseCfg4 [a, b, c, d]).map (fun c => (c, false))
+  | [a, b, c, d, e] =>
+    if e = "parts=split" then (parseCfg4 [a, b, c, d]).map (fun c => (c, true))
+    else if e = "parts=merge" then (parseCfg4 [a, b, c, d]).map (fun c => (c, false))
+    else none
   | _ => none
 
 def parseCount (s : String) : Option Nat :=
@@ -131,8 +140,10 @@ def showSet (l : List Nat) : String := showNatList (dedupSorted (sortNat l))
 structure St where
   cfg : Cfg
   ds : Option Ds
+  split : Bool := false
+  compacted : Bool := false
 
-def St.init : St := ⟨⟨true, true, none, true⟩, none⟩
+def St.init : St := ⟨⟨true, true, none, true⟩, none, false, false⟩
 
 def bad : String := "err parse"
 
@@ -165,7 +176,7 @@ def step (s : St) (line : String) : St × String :=
   match splitTokens line, s.ds with
   | "cfg" :: rest, none =>
     match parseCfg rest with
-    | some c => ({ s with cfg := c }, "ok")
+    | some (c, sp) => ({ s with cfg := c, split := sp }, "ok")
     | none => (s, bad)
   | ["tok", t], _ =>
     match parseText t with
@@ -177,7 +188,7 @@ def step (s : St) (line : String) : St × String :=
     match parseFrags f with
     | some (g :: gs) =>
       if g.isEmpty then (s, bad) else
-      let ds := (Ds.init s.cfg).append (g :: gs)
+      let ds := (Ds.init s.cfg s.split).append (g :: gs)
       ({ s with ds := some ds }, s!"ok n={ds.liveCount}")
     | _ => (s, bad)
   | ["append", f], some ds =>
@@ -192,6 +203,13 @@ def step (s : St) (line : String) : St × String :=
   | ["optimize"], some ds =>
     let ds := ds.optimize stdOps
     ({ s with ds := some ds }, statsLine ds)
+  | ["compact"], some ds =>
+    if s.compacted then (s, bad) else
+    let ds := ds.compact
+    ({ s with ds := some ds, compacted := true },
+      match ds.idx with
+      | none => "ok none"
+      | some ix => s!"ok docs={ix.numDocs} toks={ix.numTokens}")
   | ["delete", l], some ds =>
     match parseNatList l with
     | some (i :: is) =>
